@@ -320,6 +320,12 @@ impl<'a> Ev<'a> {
                     return; // constant / unit variant pattern
                 }
                 let val = if size(v) > 600 { json!({"k":"big","name":name,"ty":ty_of(v)}) } else { v.clone() };
+                let kind = val.get("k").and_then(|k| k.as_str()).unwrap_or("");
+                let val = if matches!(kind, "atom" | "var" | "closure" | "vecof" | "big" | "unit" | "uninit") {
+                    val
+                } else {
+                    json!({"k":"var","name":name,"v":val,"ty":ty_of(v)})
+                };
                 self.define(&name, val);
                 if let Some((_, s)) = &i.subpat {
                     self.bind_pat(s, v);
